@@ -17,7 +17,7 @@ import sys
 import traceback
 
 
-def raw_request(V, decl):
+def raw_request(V, decl, want_fallback=False):
     """the name complete_setup starts from (l.698-746), replicated; None if it would assert"""
     import cohdl
     from cohdl._core import _enum as cohdl_enum
@@ -57,6 +57,8 @@ def raw_request(V, decl):
             return None
     else:
         return None
+    if want_fallback:
+        return fallback if fallback is not None else "obj"
     if override is not None:
         return override
     if decl.name_hint is not None:
@@ -78,7 +80,8 @@ def install_recorder(rec):
                 used = set(self._parent._used_names) | set(self._used_names)
             active = [d for d in self._declarations.values() if d.active]
             entry = {"cls": type(self).__name__, "used": sorted(str(u) for u in used),
-                     "reqs": [raw_request(V, d) for d in active], "names": None}
+                     "reqs": [raw_request(V, d) for d in active],
+                     "fallbacks": [raw_request(V, d, True) for d in active], "names": None}
             rec.append(entry)
         except BaseException as e:  # noqa
             entry = {"cls": type(self).__name__, "error": repr(e)}
